@@ -39,7 +39,7 @@ func init() {
 		},
 		Real:       []string{"seehuhn.de/go/pdf DecodeStream, GetFilters, MakeFilter, all filters and internal codecs incl. JPEG and JBIG2 decoders (working tree)"},
 		Stub:       []string{"Getter (in-memory object table incl. cycles)", "source delivery (simio)", "memory budget argument", "consumer (early close)"},
-		Quick:      core.Budget{Runs: 160000, Secs: 150},
+		Quick:      core.Budget{Runs: 120000, Secs: 150},
 		Thorough:   core.Budget{Runs: 5000000, Secs: 900},
 		Run:        Run,
 		Corners:    corners,
@@ -204,7 +204,7 @@ func Run(e *core.Env) {
 		switch t.Draw("bomb", 5) {
 		case 4: // nested: zeros compressed two or three times, any decoder on top
 			depth := 2 + t.Draw("bomb.depth", 2)
-			mib := tape.Pick(t, "bomb.mib", 1, 4, 12, 24, 48, 96, 200)
+			mib := tape.Pick(t, "bomb.mib", 1, 4, 12, 24, 48, 96)
 			key := fmt.Sprint(mib)
 			var stages []bool
 			for i := 0; i < depth; i++ {
